@@ -36,8 +36,9 @@ def Sh.setNext (s : Sh) (n : Nat) (x : Option Nat) : Sh :=
   { s with next := fun m => if m = n then x else s.next m }
 
 inductive PC where
-  | enqA (v : Nat)                          -- Enqueue: `Add:length` (+1)
-  | enqB (v : Nat)                          --   bounded, over capacity: `Add:length` (-1), then ErrMailboxFull
+  | enqU (v : Nat)                          -- Enqueue (unbounded): `Add:length` (+1)
+  | enqL (v : Nat)                          -- Enqueue (bounded): `Load:length`; at capacity → ErrMailboxFull
+  | enqC (v : Nat) (l : Int)                --   `CAS:length` (l → l+1); on failure back to the load
   | push1 (v : Nat)                         -- intake.push: `Load:head`
   | push2 (v : Nat) (old : Option Nat)      --   `Store:next` (ctx.next := old)
   | push3 (v : Nat) (old : Option Nat)      --   `CAS:head` (old → ctx)
@@ -52,14 +53,14 @@ inductive PC where
   | emp1                                    -- IsEmpty → Len: `Load:length`
   deriving Repr, DecidableEq
 
-def start : Op → PC
-  | .enq v _ => .enqA v
+def start (k : Conf) : Op → PC
+  | .enq v _ => if k.cap.isSome then .enqL v else .enqU v
   | .deq => .deq1
   | .emp => .emp1
   | .len => .len1
 
 def label : PC → String
-  | .enqA _ => "Add:length" | .enqB _ => "Add:length"
+  | .enqU _ => "Add:length" | .enqL _ => "Load:length" | .enqC _ _ => "CAS:length"
   | .push1 _ => "Load:head" | .push2 _ _ => "Store:next" | .push3 _ _ => "CAS:head"
   | .deq1 => "Load:length" | .deq2 => "Swap:head" | .deq3 _ _ => "Load:next" | .deq4 _ _ _ => "Store:next"
   | .deq5 _ => "Load:next" | .deq6 _ _ => "Store:next" | .deq7 _ => "Add:length"
@@ -72,12 +73,13 @@ def afterDrain (k : Conf) (s : Sh) : Sh × Next PC :=
   | some (x, rest) => ({ s with heap := rest }, .goto (.deq7 x.1))
 
 def exec (k : Conf) (s : Sh) : PC → Sh × Next PC
-  | .enqA v =>
-    let s' := { s with length := s.length + 1 }
+  | .enqU v => ({ s with length := s.length + 1 }, .goto (.push1 v))
+  | .enqL v =>
     match k.cap with
-    | some c => if s'.length > (c : Int) then (s', .goto (.enqB v)) else (s', .goto (.push1 v))
-    | none => (s', .goto (.push1 v))
-  | .enqB _ => ({ s with length := s.length - 1 }, .ret .full)
+    | some c => if s.length ≥ (c : Int) then (s, .ret .full) else (s, .goto (.enqC v s.length))
+    | none => (s, .goto (.enqC v s.length))
+  | .enqC v l =>
+    if s.length = l then ({ s with length := l + 1 }, .goto (.push1 v)) else (s, .goto (.enqL v))
   | .push1 v => (s, .goto (.push2 v s.head))
   | .push2 v old => (s.setNext v old, .goto (.push3 v old))
   | .push3 v old =>
@@ -106,6 +108,6 @@ def exec (k : Conf) (s : Sh) : PC → Sh × Next PC
 
 def init : Sh := { head := none, next := fun _ => none, heap := [], seq := 0, length := 0 }
 
-def algo (k : Conf) : Algo := { Sh, PC, start, label, exec := exec k }
+def algo (k : Conf) : Algo := { Sh, PC, start := start k, label, exec := exec k }
 
 end GoaktVerif.Model.C04.Intake
